@@ -1,15 +1,17 @@
 #!/usr/bin/env python3
 """Writes engine/py/kv/known_fns.txt: the function vocabulary of the tree the reference tables were written against.
 A workspace function that is NOT in this list (a helper extracted later) is inlined by the path enumerator when it is loop-free,
-so that extracting a helper is not mistaken for a change of behaviour.  The list never decides a verdict."""
+so that extracting a helper is not mistaken for a change of behaviour; the recorded signature lets a check find an anchored
+private function again after a pure rename (same module, same signature, new name).  The list never decides a verdict."""
 import sys
 sys.path.insert(0, "/verif/engine/py")
 from kv import facts, mir
-names = set()
+names = {}
 for cfg in ("FULL", "DEBUG", "MIN"):
     prog = mir.load_program(cfg, facts.tree_hash())
     for b in prog.bodies:
         if b.promoted is None:
-            names.add(b.key)
-open("/verif/engine/py/kv/known_fns.txt", "w").write("\n".join(sorted(names)) + "\n")
+            sig = "(%s) -> %s" % (", ".join(b.rec.get("sig_inputs") or []), b.rec.get("sig_output") or "")
+            names.setdefault(b.key, sig)
+open("/verif/engine/py/kv/known_fns.txt", "w").write("".join("%s\t%s\n" % (k, v) for k, v in sorted(names.items())))
 print(len(names), "functions")
